@@ -101,7 +101,9 @@ fn allocate_jit_memory_unix(_src: &FuncPtrInternal, code_size: usize) -> *mut u8
             if ptr != libc::MAP_FAILED {
                 let allocated = ptr as u64;
                 let diff = allocated.abs_diff(original_addr);
-                if diff <= max_range {
+                // Strictly inside the range: at exactly +max_range the AArch64 `B` (imm26, at most
+                // +128MB-4) cannot reach the block, and the encoder would refuse it after it was kept.
+                if diff < max_range {
                     return ptr as *mut u8;
                 } else {
                     unsafe { libc::munmap(ptr, code_size) };
